@@ -1,6 +1,7 @@
 package main
 
 import (
+	"go/token"
 	"go/types"
 	"sort"
 
@@ -220,5 +221,99 @@ func ruleBoxContentsImmutable(c *Ctx, rule string) {
 	}
 	for _, s := range sinks {
 		c.Bad(rule, fnName(s.In.Parent())+":write-through(box contents)", c.Pos(s.In.Pos()), s.What+": the write lands in the parent state before the group commits and is not undone when the group fails")
+	}
+}
+
+// MentionsValue reports whether the definition tree of v contains target.
+func MentionsValue(v, target ssa.Value, depth int) bool {
+	found := false
+	walkDef(v, depth, func(x ssa.Value) bool {
+		if x == target {
+			found = true
+		}
+		return !found
+	})
+	return found
+}
+
+// ruleLRUFreshness: in each LRU cache `write` method, stores into an element
+// that was found in the cache's map are guarded by cached.Before(new).
+func ruleLRUFreshness(c *Ctx, rule string, writeFns ...string) {
+	for _, spec := range writeFns {
+		fn := c.Fn(spec)
+		var found []ssa.Value
+		for _, b := range fn.Blocks {
+			for _, in := range b.Instrs {
+				if lk, ok := in.(*ssa.Lookup); ok {
+					if _, isMap := lk.X.Type().Underlying().(*types.Map); isMap {
+						found = append(found, lk)
+					}
+				}
+			}
+		}
+		if len(found) == 0 {
+			c.Unk(rule, spec+":lookup", c.Pos(fn.Pos()), "no map lookup of the cached element found: idiom not recognised")
+			continue
+		}
+		effects := Instrs(fn, func(in ssa.Instruction) bool {
+			st, ok := in.(*ssa.Store)
+			if !ok {
+				return false
+			}
+			for _, el := range found {
+				if MentionsValue(st.Addr, el, 6) {
+					return true
+				}
+			}
+			return false
+		})
+		// the Before method called on the cached element
+		var before []*types.Func
+		var beforeCalls int
+		for _, b := range fn.Blocks {
+			for _, in := range b.Instrs {
+				if call, ok := in.(*ssa.Call); ok {
+					if f := calleeOf(call.Common()); f != nil && f.Name() == "Before" {
+						args := callArgs(call.Common())
+						recvFromCache := false
+						for _, el := range found {
+							if len(args) > 0 && MentionsValue(args[0], el, 6) {
+								recvFromCache = true
+							}
+						}
+						if recvFromCache {
+							before = append(before, f)
+							beforeCalls++
+						}
+					}
+				}
+			}
+		}
+		if len(effects) == 0 {
+			c.Unk(rule, spec+":overwrite", c.Pos(fn.Pos()), "no store into the cached element found: idiom not recognised")
+			continue
+		}
+		if beforeCalls == 0 {
+			c.Bad(rule, spec+":overwrite<=cached.Before(new)", c.Pos(effects[0].Pos()), "an existing cache entry is overwritten without comparing rounds: a stale row read before a commit can replace the committed one")
+			continue
+		}
+		c.MustGuard(MustGuardSpec{Rule: rule, Fn: fn, Effects: effects, EffName: "overwrite(cached entry)", Guards: []Guard{GBool("cached.Before(new)", ResultOf(0, before...), true)}})
+		for _, bf := range before {
+			bfn := c.SSAOf(bf)
+			ok := bfn != nil
+			n := 0
+			if ok {
+				for _, b := range bfn.Blocks {
+					if ret, isRet := b.Instrs[len(b.Instrs)-1].(*ssa.Return); isRet {
+						n++
+						bo, isBo := ret.Results[0].(*ssa.BinOp)
+						if !isBo || bo.Op != token.LSS || len(bfn.Params) != 2 || !MentionsValue(bo.X, bfn.Params[0], 5) || !MentionsValue(bo.Y, bfn.Params[1], 5) {
+							ok = false
+						}
+					}
+				}
+			}
+			c.Check(ok && n == 1, rule, funcObjName(bf)+":receiver.round<other.round", c.Pos(bf.Pos()), "Before orders rows by their round: true iff the receiver's round is strictly lower than the argument's")
+		}
 	}
 }
